@@ -81,6 +81,25 @@ PROPS = {
         rule="valid streams with every scalar kind incl. nil big numbers and NaNs in float/decimal/big-decimal form; one in five mutated (prefix forwarded before the rejection)",
         trusted_base=COMMON_TB + ["rule table translated from /repo/rules/*.go (extract/extract.py) and proved equal to the model table in CE/Gen/Check.lean on every run", "Context methods and rules_event_rcv.go hand-modelled in CE/Rules/Machine.lean, tied by the RULES correspondence (verdict, rejection index, error class, forwarded events)"],
     ),
+    "C22": dict(
+        claim="theorems posInt_minimal / negInt_minimal: for every integer below 2^64 the encoder's output length is among the lengths of the encodings the format offers (forms written from the type table, independently of the encoder's switch) and no offered encoding is shorter; posInt_reencode / negInt_reencode: what the decoder emits for an encoder-written integer encodes to the same bytes. "
+              "Harness: single values (integers in every event form around every width boundary, float bit patterns incl. bfloat16/float32 exactness boundaries and subnormals, strings/arrays of length 0,1,14..17,64,130) are encoded by the real encoder and the length is compared with the driver's independent minimal-length oracle (CBE.MINLEN: significant-bit test for floats, short-header rule for arrays); streams: decode(encode(evs)) encoded again must be byte-identical",
+        note="partial: float narrowest-width and short-header minimality and stream idempotence are decided by the oracle on every run, not yet theorems. Trusted: as C01",
+        level="proof", n_quick=9000, n_thorough=600000, shards=16,
+        lean_modules=["CE.Props.C22", "CE.Cbe.Minimal"],
+        rule="two thirds single values from boundary pools and random draws, one third generated rules-valid streams for the idempotence part; distinct by event text",
+        trusted_base=COMMON_TB,
+        assumptions=["IEEE-754 correct rounding of float64->float32 conversion (F32Conv)"],
+    ),
+    "C27": dict(
+        claim="theorems over the dispatch/version facts extracted from /repo on this run (CE/Gen/Api.lean): universal decode and universal unmarshal detect the format identically for every byte; 'c', 'C' and 0x81 are recognised and nothing else; for every natural number v a header version is accepted iff v is 0 or 1, in both formats; both decoders forward the mapped version, the lexer admits exactly digits 0 and 1, marshalers emit the library version 0. "
+              "Harness: every first byte 0-255 x versions x valid/invalid bodies through UniversalDecoder.DecodeDocument/Decode, UnmarshalFromCEDocument/UnmarshalCE and the format-specific entry points: events, values and error-ness must coincide; versions 0..300 (CBE, multi-byte ULEB incl. over-long forms) and 0..99 (CTE) accepted iff the model says so; marshalers write version 0",
+        note="Trusted: the extractor's reading of chooseDecoder/chooseUnmarshaler (case labels), of the `if ver == 1 { ver = 0 }` steps and of the lexer's CTE_VERSION class; behaviour of the bodies after dispatch is compared, not modelled",
+        level="proof", n_quick=1, n_thorough=1, shards=4,
+        lean_modules=["CE.Props.C27"],
+        rule="enumeration: 256 first bytes x (3 versions x 2 bodies + 3 tails), 11 CBE version encodings x 6 bodies, 2 header letters x 10 version spellings x 7 bodies, versions 0..300 / 0..99; distinct by document bytes",
+        trusted_base=COMMON_TB,
+    ),
 }
 
 NOT_APPLICABLE = {}
